@@ -105,6 +105,38 @@ def r10_2(repo: Repo, rule: str = "R10.2") -> RuleResult:
         sd = single_defs(f)
         arr_def = norm(sd[arr]) if arr in sd else None
         checked = 0
+        # position expressed in the coordinates of the parent array: X = <slice start> + searchsorted(P[start:end], k)
+        w0 = _CLAMPED.get(id(call))
+        if isinstance(w0, ast.BinOp) and isinstance(w0.op, ast.Add) and arr in sd and isinstance(sd[arr], ast.Subscript) and isinstance(sd[arr].slice, ast.Slice):
+            parent = norm(sd[arr].value)
+            lo, hi = sd[arr].slice.lower, sd[arr].slice.upper
+            other = w0.right if any(call is x for x in ast.walk(w0.left)) else w0.left
+            lo_txts = {norm(lo)} | ({norm(sd[norm(lo)])} if norm(lo) in sd else set()) | {k for k, v in sd.items() if norm(v) == norm(lo)}
+            if norm(other) in lo_txts and hi is not None:
+                hi_txts = {norm(hi)} | {k for k, v in sd.items() if norm(v) == norm(hi)}
+                for u in [n for n in walk_no_nested(f.node) if isinstance(n, ast.Subscript) and norm(n.slice) == pos and norm(n.value) == parent and n is not target]:
+                    checked += 1
+                    construct = "%s[%s]" % (parent, pos)
+                    bound = None
+                    prev = u
+                    for a in ancestors(u, pm):
+                        conj = []
+                        if isinstance(a, ast.BoolOp) and isinstance(a.op, ast.And):
+                            idx = [i for i, v in enumerate(a.values) if any(prev is x for x in ast.walk(v))]
+                            conj = a.values[: idx[0]] if idx else []
+                        if isinstance(a, ast.If) and any(prev is s2 or any(prev is x for x in ast.walk(s2)) for s2 in a.body):
+                            conj = a.test.values if isinstance(a.test, ast.BoolOp) and isinstance(a.test.op, ast.And) else [a.test]
+                        for v in conj:
+                            if isinstance(v, ast.Compare) and len(v.ops) == 1 and isinstance(v.ops[0], ast.Lt) and norm(v.left) == pos:
+                                bound = norm(v.comparators[0])
+                        prev = a
+                    if bound in hi_txts:
+                        rr.ok(f, construct, "position bounded by the end of its own row slice (`%s < %s`)" % (pos, bound), u.lineno)
+                    else:
+                        rr.bad(f, construct,
+                               "`%s` = %s + np.searchsorted(%s, ...) indexes `%s`, but it is bounded by `%s`, not by the end of the searched "
+                               "slice `%s`: a key larger than every element of the row lands on the next row's first entry and is compared / "
+                               "credited there" % (pos, norm(other), arr, parent, bound or "nothing", norm(hi)), u.lineno)
         for u in uses:
             base = norm(u.value)
             same = base == arr
@@ -138,6 +170,8 @@ def r10_2(repo: Repo, rule: str = "R10.2") -> RuleResult:
                     break
                 prev = a
             wrapper = _CLAMPED.get(id(call))
+            if wrapper is not None and isinstance(wrapper, ast.BinOp):
+                wrapper = None  # handled as an offset position below
             if wrapper is not None:
                 # min(pos, len(A) - 1): in range only if A is not empty - the empty slice gives -1
                 wtxt = norm(wrapper).replace(" ", "")
